@@ -43,7 +43,7 @@ reg(
       bounds="all field values; inputs 0..33 arbitrary bytes", functions=["vecdb::HeaderInner::{to_bytes,from_bytes}"], stubs=[FMT]),
     H("c17_change_cursor_bounds", "vecdb", "C17", mem=6, timeout=600, memsafe=True, also=("C16",),
       desc="ChangeCursor::{skip,read_values}: symbolic 64-bit counts and element sizes never overflow or read past the input (checked_mul / checked_add guard every read)",
-      bounds="input 0..24 arbitrary bytes; count any usize; element size in {4,8,16,usize::MAX/2}", functions=["vecdb::ChangeCursor::{skip,read_values,check_remaining}"], stubs=[FMT, WCAP0]),
+      bounds="input 0..16 arbitrary bytes; count any usize; element size in {4,8,16,usize::MAX/2}", functions=["vecdb::ChangeCursor::{skip,read_values,check_remaining}"], stubs=[FMT, WCAP0]),
     H("c16_parse_change_data_any_bytes", "vecdb", "C17", mem=44, timeout=3000, tier="thorough", also=("C16", "C13"),
       desc="parse_change_data on an arbitrary byte string: Err(WrongLength|Overflow|Underflow) or a ChangeData whose vectors fit inside the input and echo its fields; no panic, allocation bounded by the input",
       bounds="record = 0..56 arbitrary bytes (truncation at every offset and arbitrary length fields included); element size 4", functions=["vecdb::ReadWriteBaseVec::parse_change_data", "vecdb::ChangeCursor"], stubs=[FMT, WCAP0]),
@@ -180,7 +180,9 @@ C06B = ("inductive one-call form: source = mock ReadableVec (symbolic u32 conten
 for (n, d, f, q) in [
     ("c06_transform_step", "compute_transform: afterwards len = source len and out[k] = f(k, src[k]) for a symbolic k", ["vecdb::EagerVec::{compute_transform,compute_init,repeat_until_complete,batch_end}", "vecdb::WritableVec::{validate_computed_version_or_reset,checked_push_at,truncate_if_needed}"], True),
     ("c06_sum_step", "compute_sum (fixed window, leaving-value cursor): equals the from-scratch windowed sum", ["vecdb::EagerVec::compute_sum", "vecdb::Cursor"], False),
-    ("c06_max_step", "compute_max (monotonic deque rebuilt on resume): equals the from-scratch windowed maximum", ["vecdb::EagerVec::{compute_max,compute_monotonic_window}"], True),
+    ("c06_max_step", "compute_max (monotonic deque rebuilt on resume): equals the from-scratch windowed maximum", ["vecdb::EagerVec::{compute_max,compute_monotonic_window}"], False),
+    ("c06_add_step", "compute_add over two sources of unequal lengths: equals a[i]+b[i] up to the shorter source", ["vecdb::EagerVec::{compute_add,compute_transform2}"], True),
+    ("c06_all_time_high_step", "compute_all_time_high: equals the from-scratch running maximum (resumes from the stored value)", ["vecdb::EagerVec::{compute_all_time_high,compute_all_time_extreme}"], True),
     ("c06_cumulative_step", "compute_cumulative: equals the from-scratch prefix sum", ["vecdb::EagerVec::compute_cumulative"], True),
 ]:
     reg(H(n, "vecdb", "C06", mem=24, timeout=1800, tier="quick" if q else "thorough", desc=d, bounds=C06B, functions=f,
